@@ -282,6 +282,8 @@ def corrupted_sources():
         ("conflicting-issuer-case", f"otpauth://totp/Provider1:alice?secret={key32}&issuer=provider1"),
         ("conflicting-issuer-blank", f"otpauth://totp/Provider1:alice?secret={key32}&issuer=Provider1%20"),
         ("duplicate-param", f"otpauth://totp/alice?secret={key32}&secret={key32}"),
+        ("duplicate-label-param", f"otpauth://totp/alice?secret={key32}&label=mallory"),
+        ("duplicate-label-param-same", f"otpauth://totp/alice?secret={key32}&label=alice"),
         ("duplicate-param-digits", f"otpauth://totp/alice?secret={key32}&digits=6&digits=8"),
         ("duplicate-issuer", f"otpauth://totp/alice?secret={key32}&issuer=a&issuer=b"),
         ("missing-secret", "otpauth://totp/alice?issuer=Example"),
@@ -358,7 +360,7 @@ def t_corrupt_hyp(rec, seed, tier):
                 issuer2 += "x"
             src = base + "&issuer=" + q(issuer2, safe="")
         elif kind == "duplicate-param":
-            p = draw(st.sampled_from(["secret=S3JDVB7QD2R7JPXX", "digits=6", "period=30", "algorithm=SHA1", "issuer=" + q(issuer, safe="")]))
+            p = draw(st.sampled_from(["secret=S3JDVB7QD2R7JPXX", "digits=6", "period=30", "algorithm=SHA1", "issuer=" + q(issuer, safe=""), "label=" + q(label, safe=""), "label=" + q(issuer2, safe="")]))
             src = base + "&issuer=" + q(issuer, safe="") + ("&digits=6&period=30&algorithm=SHA1" if "=" in p else "") + "&" + p
         else:
             src = base.replace("?secret=S3JDVB7QD2R7JPXX", "?issuer=" + q(issuer, safe=""))
